@@ -20,6 +20,7 @@ DOC = {
  "C02.R4": "= C07.R5: status gate < admission < enqueue, ticket alive across the enqueue",
  "C02.R5": "the TypeId comparison guards delegation in the checked entry; the unchecked send has exactly one caller (that entry); public send paths reach the channel through it",
  "C02.R7": "= C07.R3: `Ok => handled unless the actor exits first` needs the admission CAS to re-test the closed bit on every retry (no admission after the drain marker)",
+ "C02.R8": "= C19.R5 (cluster builds): serialized payloads are decoded under catch_unwind in both runtimes and an undecodable one is dropped, never propagated into the actor",
  "C02.R6": "the message is taken by value and `Message` has no Clone supertrait: a send either enqueues the value or hands it back",
 }
 
@@ -184,9 +185,19 @@ def r6(run, db):
             run.check(not db.has_impl(a, "std::clone::Clone") and not db.has_impl(a, "core::clone::Clone"), "no-clone-adt:" + a, "%s is not Clone" % a, "%s is Clone: a queued message could be duplicated" % a)
 
 
+def r8(run, db):
+    """= C19.R5: `a send with the wrong message type is rejected without disturbing the actor` for serialized payloads: both
+    runtimes decode under catch_unwind and drop what does not decode (no `?` on the decode result)"""
+    if db.tag not in ("rc", "clus", "rcatr", "ws"):
+        run.ok("cluster-only", "serialized payloads exist only in cluster builds (analysed under tag rc)")
+        return
+    from . import c19
+    c19.r5(run, db)
+
+
 Q = ["dflt", "rc"]
 TH = ["dflt", "rc", "atr", "astd", "ws"]
-RULES = [{"id": "C02.R%d" % i, "fn": f, "quick": Q, "thorough": TH} for i, f in enumerate([r1, r2, r3, r4, r5, r6, r7], 1)]
+RULES = [{"id": "C02.R%d" % i, "fn": f, "quick": Q, "thorough": TH} for i, f in enumerate([r1, r2, r3, r4, r5, r6, r7, r8], 1)]
 from .etype import witness_rule
 RULES.append({"id": "C02.W", "fn": witness_rule(['W3TypedSend', 'W7SendConsumes']), "quick": [], "thorough": [], "no_db": True})
 DOC["C02.W"] = 'E-TYPE witnesses W3 (typed send rejects a foreign message type, E0308) and W7 (the send consumes the message, E0382), each with a compiling twin'
